@@ -7,3 +7,5 @@ import UF.GroupC
 import UF.GroupD
 import UF.GroupE
 import UF.GroupF
+import UF.GroupG
+import UF.GroupH
